@@ -457,9 +457,16 @@ def clause_materials():
         s = math.fsum(mf.values())
         ok(abs(s - 1.0) <= MASSFRAC_TOL, "material.massfrac-sum.%s" % name, "mass fractions do not sum to one within 1e-6" if mf else "library material without any composition",
            cls=name, sum=s, massFrac=mf)
-        # a second instance has the same composition (class-level state is not consumed by instantiation)
+        # a second instance has the same composition: class-level state is not consumed by instantiation, and the
+        # composition of an instance is its own - editing the first instance IN PLACE must not reach the second
         try:
-            ok(dict(cls().massFrac) == mf, "material.instantiate-unstable.%s" % name, "two instances differ in composition", cls=name)
+            for k in list(m.massFrac):
+                m.massFrac[k] *= 0.125
+        except Exception:  # noqa
+            pass
+        try:
+            ok(dict(cls().massFrac) == mf, "material.instantiate-unstable.%s" % name,
+               "two instances differ in composition (the first was edited in place before the second was made)", cls=name)
         except Exception as e:  # noqa
             bad("material.instantiate.%s" % name, "second instantiation failed", cls=name, error=repr(e)[:200])
     B.extra["materials_empty_by_design_skipped"] = skipped
